@@ -274,6 +274,7 @@ def run(ctx):
         uni = [r for r in uni if len(r[2]) <= 1] + [r for r in uni if len(r[2]) == 2][::3] + \
             [r for r in uni if len(r[2]) == 3][::150]
         ctx.note("stride", "depth-2 every 3rd, depth-3 every 150th")
+        ctx.cap_hit("ZX diagrams: depth 2 every 3rd, depth 3 every 150th (depth <= 1 complete); two-spider graphs every 4th (one-spider graphs complete)")
     else:
         uni = [r for r in uni if len(r[2]) <= 2] + [r for r in uni if len(r[2]) == 3][::15]
         ctx.cap_hit("depth-3 ZX diagrams enumerated with stride 15 (depth <= 2 complete)")
